@@ -250,6 +250,19 @@ Section Binding.
     aset "flow_hierarchy_position" (r_hier R)
       (aset "source_head_uid" (r_head_uid R) (aset "source_flow_instance_uid" (r_source_uid R) a2)).
 
+  (* FlowState.start_event, used by _finish_flow/_abort_flow to RESTART an activated flow:
+        arguments = {flow_instance_uid, flow_id, source_flow_instance_uid, source_head_uid,
+                     flow_hierarchy_position, activated}
+        arguments.update(self.arguments)
+        event.arguments.update({"source_flow_instance_uid": ...})
+     i.e. the successor instance is started from the predecessor's `arguments` (the parameter
+     values bound at ITS start and the `$i` keys), not from its context. *)
+  Definition restart_event_args (R : reserved) (activated : value) (args : ctx) : ctx :=
+    aset "source_flow_instance_uid" (r_source_uid R)
+      (aupdate [("flow_instance_uid", r_instance_uid R); ("flow_id", r_flow_id R);
+                ("source_flow_instance_uid", r_source_uid R); ("source_head_uid", r_head_uid R);
+                ("flow_hierarchy_position", r_hier R); ("activated", activated)] args).
+
   (* the arguments of the caller's `match FlowStarted(...)`.
      [with_args] = true: the source passes the complete call-argument dict (flow_id,
      flow_instance_uid AND every call argument; without `activated` and without the keys slide
